@@ -86,12 +86,17 @@ def grid_case(target, nr, nrho=None, fp_timeout_s=60):
   nrho = nrho or nr
   res = new_result("evaluation points under floating point: %s nr=%d" % (target, nr))
   spec = grid_spec(target, nr, nrho)
-  shims.install(extra_globals={m.__name__: dict(float=fpalg.sfloat) for m in shims.repo_modules()})
+  shims.install(extra_globals={m.__name__: dict(float=fpalg.sfloat, int=fpalg.sint) for m in shims.repo_modules()})
   suspicious = []
+  count_from_floats = False
   try:
     # ---- stage 1: rounding-error model, all cutoffs
     ex = core.Explorer(max_paths=4, max_seconds=120)
     for p in ex.iter_paths(lambda: run_symbolic(target, nr, nrho, "err"), catch=(Exception,)):
+      if p.aborted and "concrete count" in str(p.aborted):
+        # an integer that depends on floating-point arithmetic is used as a row count / loop bound
+        count_from_floats = True
+        continue
       if p.exc is not None or p.aborted:
         res["harness_errors"].append("rounding-error run ended: %r %r" % (p.exc, p.aborted))
         continue
@@ -141,6 +146,18 @@ def grid_case(target, nr, nrho=None, fp_timeout_s=60):
       s.add(z3.Not(z3.And(term(p.value) - exact <= rv(TOL_U) * U * exact, exact - term(p.value) <= rv(TOL_U) * U * exact)))
       if s.check() != z3.unsat:
         res["negatives_ok"] += 1
+    if count_from_floats:
+      found_c = _count_witness(target, nr, nrho, fp_timeout_s, res)
+      if found_c is not None:
+        confirmed, desc, rec = found_c
+        res["replays"] += 1
+        if confirmed:
+          res["violations"].append(dict(key="fpgrid-count-%s" % target, desc=desc, record=rec))
+        else:
+          res["inconclusive"].append("row count derived from floats: Float64 witness did not show in the written table (%s)" % desc)
+      else:
+        res["inconclusive"].append("%s: a row count is derived from floating-point values; no Float64 witness for a wrong count was found within the budget" % target)
+      return res
     if not suspicious:
       return res
     # ---- stage 2: bit-precise witness search for the positions not shown to hold
@@ -187,6 +204,48 @@ def grid_case(target, nr, nrho=None, fp_timeout_s=60):
   else:
     res["inconclusive"].append("Float64 witness %s=%r for %s did not show in the written table (%s)" % ("cutoff" if which == "r" else "cutoff_rho", cv, target, desc))
   return res
+
+
+def _count_witness(target, nr, nrho, fp_timeout_s, res):
+  """Float64 run up to the point where the float-derived integer is used as a count; z3 searches a cutoff for which it is none of the declared sizes.
+  (Run with a small row count: whether x/(x/n) can round below n depends on n; for n = 7 z3 finds a witness in under a minute, for n = 40 none exists.)"""
+  nr = nrho = 8
+  fp_timeout_s = max(fp_timeout_s, 120)
+  core.LAST_SYMBOLIC_COUNT = None
+  ex = core.Explorer(max_paths=2, query_timeout_ms=2000, max_seconds=fp_timeout_s + 60)
+  for p in ex.iter_paths(lambda: run_symbolic(target, nr, nrho, "fp"), catch=(Exception,)):
+    t = core.LAST_SYMBOLIC_COUNT
+    if t is None or not p.aborted:
+      continue
+    if not z3.is_bv(t):
+      return None
+    s = z3.SolverFor("QF_FPBV")
+    s.set("timeout", int(fp_timeout_s * 1000))
+    for cnd in p.pc:
+      s.add(cnd)
+    for legit in set([nr, nr - 1, nrho, nrho - 1, nr - 4]):
+      s.add(t != z3.BitVecVal(legit, 64))
+    r = s.check()
+    res["queries"] += 1
+    res["vcs"] += 1
+    res[str(r)] += 1
+    if r != z3.sat:
+      return None
+    m = s.model()
+    cv = float(z3.simplify(z3.fpToReal(m.eval(z3.FP("cutoff", fpalg.F64), model_completion=True))).as_fraction())
+    crv = float(z3.simplify(z3.fpToReal(m.eval(z3.FP("cutoff_rho", fpalg.F64), model_completion=True))).as_fraction())
+    # replay: count the evaluations of the concrete run
+    log = []
+    make(target, nr, nrho, cv, crv, log).write(io.StringIO())
+    spec = grid_spec(target, nr, nrho)
+    bad = []
+    for kind, (first, count, div, which) in spec.items():
+      n = len([1 for (nm, x) in log if nm == kind])
+      per_fn = n // max(1, len(set(nm for (nm, x) in log if nm == kind)))
+      if n % count != 0:
+        bad.append("%s functions were evaluated %d times in total, a table of %d rows per function was asked for" % (kind, n, count))
+    return (bool(bad), "%s with cutoff %r, nr %d: %s" % (target, cv, nr, "; ".join(bad) or "row counts as declared"), dict(cutoff=cv, cutoff_rho=crv, nr=nr))
+  return None
 
 
 def _running_sum(n):
